@@ -2073,6 +2073,8 @@ static int32_t parse_XTA(ParserBuilder *aParserBuilder,
     // Select syntax
     syntax = newxta ? syntax_t::NEW_GUIDING : syntax_t::OLD_GUIDING;
     setStartToken(part, newxta);
+    // A previous parse may have been abandoned (exception) in the middle of a comment
+    BEGIN(INITIAL);
 
     // Set parser builder
     ch = aParserBuilder;
@@ -2100,6 +2102,7 @@ static int32_t parseProperty(ParserBuilder *aParserBuilder, const std::string& x
     // Select syntax
     syntax = syntax_t::PROPERTY;
     setStartToken(S_PROPERTY, false);
+    BEGIN(INITIAL);
 
     // Set parser builder
     ch = aParserBuilder;
